@@ -14,6 +14,7 @@ package c19
 import (
 	"bytes"
 	"context"
+	"crypto/sha1"
 	"encoding/json"
 	"errors"
 	"fmt"
@@ -479,6 +480,17 @@ func nontrivial(b *behaviour) bool {
 	return hit && neg
 }
 
+func identity(b *behaviour) [20]byte {
+	h := sha1.New()
+	fmt.Fprint(h, b.Stack, b.Cap, b.DTTL)
+	for _, s := range b.Steps {
+		fmt.Fprint(h, "|", s.Name, s.W, s.Keys, s.Vals, s.TTL)
+	}
+	var out [20]byte
+	copy(out[:], h.Sum(nil))
+	return out
+}
+
 func opNames(b *behaviour, upto int) string {
 	n := []string{}
 	for i := 0; i <= upto && i < len(b.Steps); i++ {
@@ -526,6 +538,7 @@ func TestReplay(t *testing.T) {
 	seed := int(abs.Seed())
 	res := &abs.Result{}
 	stacks := map[string]int{}
+	seen := map[[20]byte]bool{} // distinct = distinct (configuration, operation sequence with arguments)
 	opsRun, ndScripts, branches := 0, 0, 0
 
 	if _, err := snappy.Decode(nil, corruptBytes); err == nil {
@@ -577,8 +590,11 @@ func TestReplay(t *testing.T) {
 		}
 		b0 := &group[0]
 		stacks[strings.Join(b0.Stack, ">")]++
-		if nontrivial(b0) {
-			res.Nontrivial++
+		if key := identity(b0); !seen[key] {
+			seen[key] = true
+			if nontrivial(b0) {
+				res.Nontrivial++
+			}
 		}
 		if !matched {
 			note := ""
